@@ -151,6 +151,35 @@ func init() {
 	for k, v := range threadStubs {
 		stubs[k] = v
 	}
+	stubs["sort.Search"] = func(p *path, caller *frame, a []value) value {
+		// the real binary search, the predicate being called in the interpreter
+		nt := a[0].(*Term)
+		if !nt.IsConst() {
+			p.unsupported("sort.Search on a symbolic length")
+		}
+		i, j := 0, int(nt.Int64())
+		for i < j {
+			h := int(uint(i+j) >> 1)
+			r := p.call(caller, a[1], []value{p.tc.BV(64, uint64(h))}, nil).(*Term)
+			if !p.branch(r) {
+				i = h + 1
+			} else {
+				j = h
+			}
+		}
+		return p.tc.BV(64, uint64(i))
+	}
+	stubs["sort.SliceIsSorted"] = func(p *path, caller *frame, a []value) value {
+		xi, _ := a[0].(iface)
+		s, _ := xi.v.([]value)
+		for i := len(s) - 1; i > 0; i-- {
+			r := p.call(caller, a[1], []value{p.tc.BV(64, uint64(i)), p.tc.BV(64, uint64(i-1))}, nil).(*Term)
+			if p.branch(r) {
+				return p.tc.ff
+			}
+		}
+		return p.tc.tt
+	}
 	registerExecStubs()
 	registerJSONStubs()
 }
